@@ -3,7 +3,7 @@
     sumbool, sumor; no Extract Constant).  N / Z / nat stay the extracted inductive datatypes. *)
 From Coq Require Extraction.
 From Coq Require Import ExtrOcamlBasic.
-From HC Require Import Base.HBytes Model.Tlv8 Model.Storage Model.Framing Model.ConnRead Model.ConnWrite Model.Charac Model.Hap.
+From HC Require Import Base.HBytes Model.Tlv8 Model.Storage Model.Framing Model.ConnRead Model.ConnWrite Model.Charac Model.Hap Gen.CatalogGen Model.Catalog.
 Extraction Language OCaml.
 Set Extraction KeepSingleton.
 Separate Extraction
@@ -16,4 +16,5 @@ Separate Extraction
   ConnRead.run_reads ConnRead.init_conn
   ConnWrite.wrun HBytes.chunks
   Charac.cstep Charac.well_typed Z.opp Z.div Z.modulo
-  Hap.step Hap.fixed Hap.store_get Hap.empty_world Hap.get_conn.
+  Hap.step Hap.fixed Hap.store_get Hap.empty_world Hap.get_conn
+  CatalogGen.char_ctors CatalogGen.svc_ctors Catalog.svc_type Catalog.svc_char_types.
